@@ -50,7 +50,27 @@ type WithInner struct {
 	Port int
 }
 
+// two different struct types that print the same ("main.Listener") and differ in their tag layout: anything keyed by
+// the type's name instead of its identity mixes them up
+func listenerType1() reflect.Type {
+	type Listener struct {
+		Name  string
+		Port  int `bcl:"listen"`
+		Iface string
+	}
+	return reflect.TypeOf(Listener{})
+}
+func listenerType2() reflect.Type {
+	type Listener struct {
+		Iface string `bcl:"listen"`
+		Name  string
+		Port  int
+	}
+	return reflect.TypeOf(Listener{})
+}
+
 var namedTypes = map[string]reflect.Type{
+	"Listener#1": listenerType1(), "Listener#2": listenerType2(),
 	"WithInner": reflect.TypeOf(WithInner{}),
 	"Tunnel": reflect.TypeOf(Tunnel{}), "Extras": reflect.TypeOf(Extras{}), "Foo_Bar": reflect.TypeOf(Foo_Bar{}),
 	"Inner": reflect.TypeOf(Inner{}), "Other": reflect.TypeOf(Other{}), "inner": reflect.TypeOf(inner{}),
